@@ -13,7 +13,7 @@ def gen_consts(steps, **over):
     c = dict(InCalls=[('ia1', 1), ('ia2', 1)], OutAliases=['oa1'], Vals=['v1'], Excs=['E1'],
              Bodies=['plain', 'interrupt'], OutResults=[('val', 'v1'), ('exc', 'E1'), ('int', 'BI')],
              Ends=['ret', 'raise', 'interrupt'], Classes=[K('K1'), K('K1c')],
-             Extractors=['none', 'ok', 'raises', 'junk'], MaxSteps=steps, MaxRuns=2, MaxRecs=2, Ctl=['subop', 'disable'])
+             Extractors=['none', 'ok', 'raises', 'junk'], MaxSteps=steps, MaxRuns=2, MaxRecs=2, Ctl=['subop', 'disable', 'discard'])
     c.update(over)
     return consts(**c)
 
